@@ -285,6 +285,7 @@ Fixpoint check_steps (prop : N) (npool : N) (pure : bool) (i : N) (st : state) (
   match l with
   | [] => []
   | TCall blk sender o hok ok ms after :: r =>
+      let pure := pure && match o with Donate _ => negb ok | _ => true end in
       let c := contract prop st npool pure prev after blk sender o hok ok ms in
       if negb (c =? 0) then [(i, 100 + c)] else
       let '(caller, o') := match o with
@@ -299,7 +300,7 @@ Fixpoint check_steps (prop : N) (npool : N) (pure : bool) (i : N) (st : state) (
       else if ((prop =? 14) || (prop =? 10)) && hok &&
               negb (list_eqb msg_eqb ms (match step st blk caller o' with Ok (_, m) => m | _ => [] end))
            then [(i, 51)]
-      else check_steps prop npool (pure && match o with Donate _ => negb ok | _ => true end) (i + 1) st' after r
+      else check_steps prop npool pure (i + 1) st' after r
   end.
 
 Definition check_trace (prop : N) (t : trace) : list (N * N) :=
